@@ -1,7 +1,6 @@
 package eng
 
 import (
-	"regexp"
 	"bufio"
 	"fmt"
 	"go/ast"
@@ -9,6 +8,7 @@ import (
 	"go/types"
 	"os"
 	"path/filepath"
+	"regexp"
 	"sort"
 	"strings"
 )
@@ -35,13 +35,14 @@ import (
 // A trailing backslash continues a clause on the next //@ line.
 
 type Clause struct {
-	Label string
-	Text  string
-	Expr  ast.Expr
-	Line  string
-	Cond  ast.Expr // modifies items: "item if cond"
-	Thorough bool  // proved (and, for invariants, assumed) only in the thorough tier; callers may rely on it in both tiers
-	Local    bool  // ensures only: proved for the function itself, NOT assumed at its call sites (keeps callers' queries small)
+	Label    string
+	Text     string
+	Expr     ast.Expr
+	Line     string
+	Cond     ast.Expr // modifies items: "item if cond"
+	Thorough bool     // proved (and, for invariants, assumed) only in the thorough tier; callers may rely on it in both tiers
+	Defined  bool     // ensures only: checked at the return points where every identifier it names is defined (locals); at least one such point must exist
+	Local    bool     // ensures only: proved for the function itself, NOT assumed at its call sites (keeps callers' queries small)
 }
 
 // CaseSplit: "cases <expr> in lo..hi" — the proof is split by the value of an integer expression of
@@ -53,37 +54,37 @@ type CaseSplit struct {
 }
 
 type LoopSpec struct {
-	N         int
-	Invs      []*Clause
-	Steps     []*Clause // proved at every back edge (phis still denote the values at the loop head)
-	Unfolds   []*Clause // rec-function applications whose defining equation is assumed at the loop head
-	Decreases *Clause
+	N          int
+	Invs       []*Clause
+	Steps      []*Clause // proved at every back edge (phis still denote the values at the loop head)
+	Unfolds    []*Clause // rec-function applications whose defining equation is assumed at the loop head
+	Decreases  *Clause
 	AssumeTerm string // "terminates-assumed <reason>": termination of this loop is an ASSUMPTION (reported), not proved
 }
 
 type FuncSpec struct {
-	Key       string
-	PkgPath   string
-	Props     []string
-	Requires  []*Clause
-	Ensures   []*Clause
-	Modifies  []*Clause
-	Allocates *Clause
-	Decreases *Clause
-	Trusted   bool
-	NoTypeInv bool
-	Loops     map[int]*LoopSpec
-	Src       string
-	PanicsOK  bool
-	Cases     []*CaseSplit
-	Splits    []*Clause // callers fork on these pre-state conditions when using the contract
-	Unfolds   []*Clause // rec-function applications (entry state) whose defining equation is assumed
-	Fuel      int
-	MaxPaths  int // path budget for this function when larger than the default (clause "paths N")
-	Timeout   int // per-solver timeout (seconds) for this function's obligations, when larger than the tier's
-	Preserves map[string][]*Clause // function-typed parameter -> regions its calls are assumed to leave unchanged
-	CalleeReq map[string][]*Clause // function-typed parameter -> conditions proved at each call through it (arguments a0, a1, …)
-	IsLemma   bool
+	Key         string
+	PkgPath     string
+	Props       []string
+	Requires    []*Clause
+	Ensures     []*Clause
+	Modifies    []*Clause
+	Allocates   *Clause
+	Decreases   *Clause
+	Trusted     bool
+	NoTypeInv   bool
+	Loops       map[int]*LoopSpec
+	Src         string
+	PanicsOK    bool
+	Cases       []*CaseSplit
+	Splits      []*Clause // callers fork on these pre-state conditions when using the contract
+	Unfolds     []*Clause // rec-function applications (entry state) whose defining equation is assumed
+	Fuel        int
+	MaxPaths    int                  // path budget for this function when larger than the default (clause "paths N")
+	Timeout     int                  // per-solver timeout (seconds) for this function's obligations, when larger than the tier's
+	Preserves   map[string][]*Clause // function-typed parameter -> regions its calls are assumed to leave unchanged
+	CalleeReq   map[string][]*Clause // function-typed parameter -> conditions proved at each call through it (arguments a0, a1, …)
+	IsLemma     bool
 	LemmaParams []PureParam
 	CallAssumes []*CallAssume // ASSUMPTIONS made at direct calls to named callees (unchecked; reported in the evidence)
 }
@@ -124,14 +125,14 @@ type TypeInv struct {
 }
 
 type SpecSet struct {
-	Funcs    map[string]*FuncSpec
-	Pures    map[string]*PureFn // key pkgpath.name
-	TypeInvs []*TypeInv
+	Funcs       map[string]*FuncSpec
+	Pures       map[string]*PureFn // key pkgpath.name
+	TypeInvs    []*TypeInv
 	GlobalFacts []*GlobalFact
-	NonNil   map[string]bool // pkgpath.global
-	Frozen   map[string]bool
-	Files    []string
-	templates map[string]*specTemplate
+	NonNil      map[string]bool // pkgpath.global
+	Frozen      map[string]bool
+	Files       []string
+	templates   map[string]*specTemplate
 }
 
 func NewSpecSet() *SpecSet {
@@ -199,6 +200,10 @@ func (ss *SpecSet) LoadSpecFile(path, pkgPath string) error {
 			if strings.HasPrefix(s, "local ") {
 				cl.Local = true
 				s = strings.TrimSpace(strings.TrimPrefix(s, "local "))
+			}
+			if strings.HasPrefix(s, "defined ") {
+				cl.Defined = true
+				s = strings.TrimSpace(strings.TrimPrefix(s, "defined "))
 			}
 			// optional label "name: expr"
 			if j := strings.Index(s, ":"); j > 0 && isIdent(s[:j]) && !strings.HasPrefix(s[j:], "::") {
